@@ -13,6 +13,13 @@ use stdlib::num::NonZeroUsize;
 include!(concat!(env!("OUT_DIR"), "/exponential_format_threshold.rs"));
 
 
+/// Verification hook: the compile-time formatting configuration
+/// (leading-zero threshold, trailing-zero threshold, max integer padding)
+#[cfg(bigdecimal_verif)]
+pub(crate) fn verif_fmt_config() -> (usize, usize, usize) {
+    (EXPONENTIAL_FORMAT_LEADING_ZERO_THRESHOLD, EXPONENTIAL_FORMAT_TRAILING_ZERO_THRESHOLD, FMT_MAX_INTEGER_PADDING)
+}
+
 impl fmt::Display for BigDecimal {
     fn fmt(&self, f: &mut fmt::Formatter) -> fmt::Result {
         dynamically_format_decimal(
